@@ -88,3 +88,14 @@ def _sig_big_int(v):
 def _sig_huge_int(v):
     f = v.features
     return v.kind == "serialize-raises" and f.get("exc") == "OverflowError" and f.get("has_int_beyond_float") is True
+
+
+@signature("mem-update-mutates-stored-points-before-swap")
+def _sig_mem_inplace(v):
+    f = v.features
+    return (
+        v.kind == "contents-changed-by-failed-call"
+        and f.get("fault") == "update_callable"
+        and f.get("storage") == "mem"
+        and f.get("explained_by_in_place_mutation") is True
+    )
